@@ -188,6 +188,9 @@ class CallMixin:
             st.assume(z3.ForAll([a, b], z3.Implies(z3.And(0 <= a, a < b, b < n), ka <= kb)))
         return VList(lst.elem_ty, res)
 
+    def lib_sort_method(self, e, st):
+        raise Unsupported(f"list.sort(key=...) at line {e.lineno}")
+
     def mutate(self, node, st, newval):
         """write the new value of a list/dict/set back to the lvalue expression it was reached through"""
         target = node.func.value
